@@ -74,15 +74,24 @@ Proof.
 Qed.
 Print Assumptions out_of_range_rejected_partial.
 
-(** First write to a new fixed-size dataset, fill mode on (hdf_xdr_NCvdata with an empty element): for every
-    transfer position w and length count inside the variable of L elements, afterwards the element has its
-    full length and every cell outside the transfer holds the fill value (user-set or default). *)
+(** First write to a new fixed-size dataset, fill mode on, through the code's own loops (hdf_xdr_NCvdata with an
+    empty element): the leading and trailing fill values are written by the do/while loops whose body updates
+    ("buf_size -= chunk_size; chunk_size = MIN(chunk_size, buf_size)", first piece MIN(buf_size, MAX_SIZE),
+    test buf_size > 0) are regenerated IN SOURCE ORDER from putget.c.  For EVERY transfer position w and length
+    count inside a variable of L elements (any byte count, below or above MAX_SIZE): the pieces are at most
+    MAX_SIZE bytes and add up to exactly the lead-in w*esz resp. the remainder, the data transfer is issued at
+    byte w*esz (no seek follows the leading fill, so this is where the loop must leave the position), afterwards
+    the element has its full length and every cell outside the transfer holds the fill value. *)
 Theorem first_write_fills : forall m w L count vals,
   m_store m = [] -> m_nofill m = false -> 0 < m_esz m ->
   0 <= w -> 0 <= count -> w + count <= L -> var_len m = L * m_esz m ->
   length vals = Z.to_nat count ->
-  exists m' tr,
-    xdr_vdata m true (w * m_esz m) count vals = Some (m', tr, []) /\
+  exists m' lc tc,
+    xdr_vdata m true (w * m_esz m) count vals =
+      Some (m', chunk_transfers 0 lc ++ [TWrite (w * m_esz m) (count * m_esz m)] ++
+                chunk_transfers (w * m_esz m + count * m_esz m) tc, []) /\
+    sumZ lc = w * m_esz m /\ sumZ tc = (L - w - count) * m_esz m /\
+    Forall (fun c => 0 < c <= MAX_SIZE) (lc ++ tc) /\
     m_store m' = repeat (Val (fill_of m)) (Z.to_nat w) ++ vals ++
                  repeat (Val (fill_of m)) (Z.to_nat (L - w - count)) /\
     Z.of_nat (length (m_store m')) * m_esz m = var_len m.
@@ -138,6 +147,12 @@ Example ex_first_write :
     Some (mkM [2; 3] 4 0 (Some 7) 0 false [Val 7; Val 7; Val 7; Val 100; Val 101; Val 7],
           [TWrite 0 12; TWrite 12 8; TWrite 20 4], []).
 Proof. vm_compute. split; reflexivity. Qed.
+
+(** the leading fill of 2,300,123 bytes is written as 1,000,000 + 1,000,000 + 300,123 *)
+Example ex_chunks :
+  fill_chunks vdata_lead_loop_step vdata_lead_loop_more (chunk_fuel 2300123) 2300123 (vdata_lead_loop_init 2300123)
+  = Some [1000000; 1000000; 300123].
+Proof. vm_compute. reflexivity. Qed.
 
 (** growth: numrecs 1 -> write positioned at record 3 of an (unlimited x 2) uint8 dataset *)
 Example ex_growth :
